@@ -35,10 +35,17 @@ CFG = dict(
         "sin/cos: Go math.Sin/Cos vs libm compared within 8 ulps or 1e-14 absolute (positions of sphere, hemisphere; 1e-15 for unit normals); quaternion-rotated parts (cylinder bottom cap, six-quad box) compared with the exact form within 1e-13 absolute (sizes <= 100; 1e-15 for unit normals)",
     ],
     residue=[
-        "positions/normals: the implementation's float64 values agree with the model at Float up to the stated tolerances (observed on every run, not proved); geometric facts (outward, volume) are theorems over the reals about the model's positions and are re-checked numerically on the implementation's own output",
-        "volume oracle: |V - Vpoly| <= 1e-9*Vanalytic (1e-7 above 10000 triangles), Vpoly <= Vanalytic, relative deficit <= 10(1/R^2+1/C^2) (sphere, hemisphere), 7/S^2 (cylinder), 1e-12 (boxes): numeric check of the implementation's mesh, not a theorem",
-        "cylinder with fewer than 3 sides and a cap panics in Circle.ToMesh (fix fc0d720): corresponded via SolidsOracle.cylinderAdmissible; degenerate pipes (sides < 3, no caps) are corresponded (indices, vertex count) but carry no oracle",
+        "the theorems are about the model (Model/Solids.lean); that the Go constructors emit exactly the model's index lists, vertex counts and panics is corresponded exactly for every (rows, cols), sides <= 24 (thorough; <= 10 quick) and sampled up to 512, not proved",
+        "positions/normals: the implementation's float64 values agree with the model at Float up to the stated tolerances (observed on every run, not proved); the geometric theorems (outward, normals, volume) are over the reals about the model's expressions (IEEE rounding not modelled) and are re-checked numerically on the implementation's own output",
+        "merge maps (uvUnweldedSrc, cylinderPt, cubeQuadsPt) are validated, not proved: the implementation's positions of merged vertices coincide within 1e-9*size and those of unmerged ones do not (c18.merge.* on every run, <= 3000 vertices); closedness is additionally evaluated with the merge map computed from the implementation's positions alone (c18.holds.closed_by_position); no theorem says that distinct logical points have distinct real positions",
+        "outward = positive signed volume of every face against an interior point (star-shapedness); embeddedness is not stated separately",
+        "hemisphere normals are not covered (the property lists sphere, box, cylinder; Hemisphere.UV's vertex-0 normal is NaN); the unwelded sphere supplies no normals",
+        "cylinder with fewer than 3 sides and a cap panics in Circle.ToMesh (fix fc0d720): corresponded via Solids.cylinderAdmissible; degenerate pipes (no caps) are corresponded (indices, vertex count) but are not solids and carry no oracle",
     ],
     assumptions=["float64 arithmetic in Go on amd64 is IEEE-754 without FMA contraction",
                  "lengths (radius, height, box dimensions) in [0.01, 100]: the absolute tolerances and the 1e-9*size coincidence rule are calibrated for this range"],
+    manifest=dict(
+        text="Lean 4 theorems, for ALL admissible parameters (no size bound), about a model of modeling/primitives: the index buffers of the UV sphere (welded; unwelded modulo its copy map), hemisphere (cap fan + dome), capped cylinder (modulo seam/cap-rim merge map) are closed consistently oriented surfaces (directed edges pairwise distinct, closed under reversal, no loops; proved via explicit twin blocks and omega on the loop indices), the welded box by decide on the cubeVertIndices table regenerated from cube.go on every run and the six-quad box modulo its corner table; over the reals every face has positive signed volume against an interior point (sphere: det = r^3 sin(phi) sin(pi/rows) sin(2pi/cols)), supplied normals of sphere, box and cylinder have positive dot product with every incident face normal, and the enclosed volumes have closed forms (box w*h*d; cylinder (S/2) sin(2pi/S) r^2 H; sphere (C r^3/3) sin(2pi/C)(1+cos(pi/R)); hemisphere likewise) bounded above by the analytic volume with explicit O(1/R^2+1/C^2) deficit. Tied to the code on every run: index lists, vertex counts and panics compared exactly with the Go constructors for every (rows, cols), sides <= 24 and sampled up to 512 with and without cap/UV options; positions and normals at Float; the merge maps against the implementation's geometry; and the theorems' predicates (closed modulo merge, outward, volume, normals outward) evaluated on the implementation's own meshes.",
+        note="Trusted: Lean kernel; propext/Classical.choice/Quot.sound; facts extractor c18.cube; harness and position-class computation; sort-based closedness check above 1200 edges (cross-checked below); sin/cos tolerance. Not proved: model = code (corresponded), merge maps (validated numerically both ways), IEEE rounding, hemisphere normals (not in the property; vertex-0 normal is NaN).",
+        technique="Lean 4 proof for all parameters (List.range/flatMap combinatorics + omega; Mathlib trigonometry over the reals) + regenerated cube tables + exact index correspondence and oracle evaluation on the implementation's meshes"),
 )
